@@ -20,7 +20,7 @@ cp $dst/demo.py $wt/SEED/demo.py
 ( cd $wt && timeout 900 /venv/bin/python SEED/demo.py > /tmp/seedeval_$id.patched.log 2>&1; echo "demo_patched_rc=$?" ) >> $res
 ( cd $wt && /venv/bin/python -m pytest -q -p no:cacheprovider --timeout=900 --continue-on-collection-errors 2>&1 | tail -1 | sed 's/^/tests_patched: /' ) >> $res
 for p in $props; do
-  out=$(VERIF_REPO=$wt timeout 1800 ./check $p 2>&1 | grep -E "^(VIOLATION|OK|INFRA|KNOWN)" | head -3 | tr '\n' '|')
+  out=$(VERIF_REPO=$wt timeout 1800 ./check $p 2>&1 | grep -E "^(VIOLATION|OK|INFRA)" | head -3 | tr '\n' '|')
   echo "check_patched $p: $out" >> $res
 done
 git -C /repo worktree remove --force $wt
